@@ -49,6 +49,15 @@ def generate(seed, tier):
         pool.append(an)
         if rng.random() < 0.4:
             block['ics'].append([an, repr(float(rng.randint(-9, 9)))])
+    if S['swarm'].random() < 0.12:
+        # a reporting ratio nothing depends on, whose k=0 value cannot be computed from the time-zero constants
+        # (denominator series starts at 0 / argument outside the domain): both twins must step over it at k=0
+        block['exo'].append(['gz', '[0.0] + [%s]*%d' % (repr(rng.choice([2.0, 4.0, 0.5])), T + 2)])
+        src = 'gz'
+        if rng.random() < 0.5:
+            block['eqs'].append(['bz', 'gz'])
+            src = 'bz'
+        block['eqs'].append(['hz', rng.choice(['10./%s', 'log10(%s)', 'sqrt(%s - 0.25)', '1.0/(%s*%s)', '%s**(-1)']).replace('%s', src)])
     if rng.random() < 0.5:
         rng.shuffle(block['eqs'])
     knobs = {'reduction': True, 'tol_param': S['knobs'].choice([1e-12, 1e-12, 1e-10, 1e-8, None]),
